@@ -246,6 +246,18 @@ def check(run, ctx):
             (run.ok(N5, rec["func"], rec["detail"]) if rec["ok"] else run.finding(N5, rec["func"], "partial-descent", f"{rec['func']}: {rec['detail']}", rec["loc"]))
     for rec in shared.collector_walkers(ctx, prefixes=(PKG,)):
         (run.ok(N5, rec["func"], rec["detail"]) if rec["ok"] else run.finding(N5, rec["func"], "pruned-walk", f"{rec['func']}: {rec['detail']}: functions nested below such a node are never analysed", rec["loc"]))
+    N6 = run.rule("N6", "NestingDepthRule does not keep the parsed (language-dependent) NestingConfig on the rule instance without a language key", floor=1,
+                  decides="the limit applied to a function is the one configured for its own language, whatever file the run saw first")
+    from ..linters import Linters
+    from . import shared
+
+    recs = [r_ for r_ in shared.config_memoisation(ctx, Linters(ctx)) if r_["rule"] == "NestingDepthRule"]
+    run.require(bool(recs), "NestingDepthRule: no config-loading method found")
+    for rec in recs:
+        if rec["bad"]:
+            run.finding(N6, f"{rec['rule']}.{rec['name']}", f"memoised:{rec['store']}", f"{rec['func'].qual} keeps the parsed configuration on the rule instance ({rec['store']}) with no test of the file's language: the first file's language fixes max_nesting_depth for every later file of the run", rec["func"].loc)
+        else:
+            run.ok(N6, f"{rec['rule']}.{rec['name']}", "no instance-level memoisation of the parsed configuration")
     run.extra["walker_signatures"] = {k: {a: b for a, b in v.items() if a != "loc"} for k, v in sigs.items()}
     return __doc__
 
